@@ -13,8 +13,14 @@ package main
 import (
 	"bytes"
 	"context"
+	"crypto/rand"
+	"crypto/x509"
+	"crypto/x509/pkix"
+	"encoding/asn1"
 	"encoding/json"
+	"errors"
 	"fmt"
+	"math/big"
 	"os"
 	"os/exec"
 	"path/filepath"
@@ -23,9 +29,11 @@ import (
 	"sync"
 	"time"
 
+	corecrl "github.com/notaryproject/notation-core-go/revocation/crl"
 	"github.com/notaryproject/notation-go/verifier/crl"
 	"github.com/notaryproject/notation-go/zzverif/engine/sched"
 	"github.com/notaryproject/notation-go/zzverif/lib/hx"
+	"github.com/notaryproject/notation-go/zzverif/lib/pki"
 )
 
 type freeJob struct {
@@ -82,14 +90,25 @@ func (w *world) runFreeRound() (panics []string) {
 				h := histOp{Thread: ti, Kind: o.Kind, URL: o.URL, In: o.Bundle}
 				h.Call = time.Since(t0).Nanoseconds()
 				switch o.Kind {
-				case "set", "setc":
+				case "set", "setc", "setx":
 					cx := ctx
 					if o.Kind == "setc" {
 						var cancel context.CancelFunc
 						cx, cancel = context.WithCancel(ctx)
 						cancel()
-						h.Kind = "set"
 					}
+					if o.Kind == "setx" {
+						var cancel context.CancelFunc
+						cx, cancel = context.WithCancel(ctx)
+						delay := time.Duration((w.round*37)%301) * time.Microsecond
+						go func() {
+							if delay > 0 {
+								time.Sleep(delay)
+							}
+							cancel()
+						}()
+					}
+					h.Kind = "set"
 					err := c.Set(cx, urls[o.URL], w.bs.bundles[o.Bundle])
 					h.Ret = time.Since(t0).Nanoseconds()
 					h.Out = "ok"
@@ -163,7 +182,11 @@ func runFreeWorker(j freeJob) freeResult {
 	hists := map[string]bool{}
 	deadline := time.Now().Add(time.Duration(j.Deadline) * time.Second)
 	for i := 0; i < j.Rounds && !time.Now().After(deadline); i++ {
+		w.round = i
 		panics := w.runFreeRound()
+		if strings.Contains(fmt.Sprint(j.Scenario.Threads), "setx") {
+			time.Sleep(2 * time.Millisecond) // let a late writer land before the post-mortem reader looks
+		}
 		pm := w.postMortem()
 		viol := w.judge(&sched.Exec{Panics: panics}, pm)
 		res.Rounds++
@@ -222,7 +245,6 @@ func raceSummary(log string) (key, what string) {
 	}
 	return "free/data-race-in-cache-code", "the race detector reports unsynchronised accesses by concurrent FileCache users, first frames in the code under test: " + strings.Join(frames, " <- ")
 }
-
 
 // freeOne runs one scenario in a -race worker process; raceLog is non-empty when the detector (or the runtime) stopped it.
 func freeOne(r *hx.Run, raceBin, bundleDir, scratch string, i int, sc scenario, rounds, deadline int) (res freeResult, raceLog string) {
@@ -399,4 +421,61 @@ func runFreeProcs(r *hx.Run, self, bundleDir, scratch string, rounds int) map[st
 		}
 	}
 	return map[string]any{"rounds": rounds, "writer_processes_per_round": len(writers), "polled_gets": polls, "distinct_outcomes": len(outcomes)}
+}
+
+// runLarge: "a complete bundle that some writer stored" has no size limit in the statement. CRLs of large CAs reach
+// tens of MiB; stored as base64 inside JSON they grow by a third. One writer stores bundles whose encoded entry is
+// 1, 20, 36 and 70 MiB (a CRL carrying one large unknown, non-critical extension), a fresh reader must get each back
+// complete - or a miss, never an error or another bundle.
+func runLarge(r *hx.Run, scratch string) map[string]any {
+	ca := pki.Make(pki.Tmpl{Subject: pki.Name("crl ca large"), CA: true, PathLen: -1}, pki.Key(pki.EC256, 101), nil)
+	now := time.Now()
+	sizes := []int{1 << 20, 15 << 20, 27 << 20}
+	if r.Thorough() {
+		sizes = append(sizes, 52<<20)
+	}
+	var done []string
+	for i, n := range sizes {
+		t := &x509.RevocationList{Number: big.NewInt(int64(500 + i)), ThisUpdate: now.Add(-time.Hour), NextUpdate: now.Add(48 * time.Hour)}
+		t.ExtraExtensions = []pkix.Extension{{Id: asn1.ObjectIdentifier{1, 3, 6, 1, 4, 1, 99999, 1}, Value: bytes.Repeat([]byte{byte('a' + i)}, n)}}
+		der, err := x509.CreateRevocationList(rand.Reader, t, ca.Cert, ca.Key)
+		if err != nil {
+			r.Infra("large bundle: %v", err)
+			return nil
+		}
+		base, err := x509.ParseRevocationList(der)
+		if err != nil {
+			r.Infra("large bundle: %v", err)
+			return nil
+		}
+		root := filepath.Join(scratch, "large", fmt.Sprint(i), "cache")
+		c, err := crl.NewFileCache(root)
+		if err != nil {
+			r.Infra("large bundle: %v", err)
+			return nil
+		}
+		label := fmt.Sprintf("%d-MiB-CRL", n>>20)
+		serr := c.Set(ctx, urls[0], &corecrl.Bundle{BaseCRL: base})
+		c2, _ := crl.NewFileCache(root)
+		b, gerr := c2.Get(ctx, urls[0])
+		out := "complete"
+		switch {
+		case errors.Is(gerr, corecrl.ErrCacheMiss):
+			out = "miss"
+		case gerr != nil:
+			out = "ERR:" + firstLine(gerr.Error())
+		case b == nil || b.BaseCRL == nil || !bytes.Equal(b.BaseCRL.Raw, der):
+			out = "OTHER-BYTES"
+		}
+		sc := scenario{Name: "large bundle " + label}
+		if out != "complete" && out != "miss" {
+			r.Violation("large/get-not-miss-or-complete-bundle", fmt.Sprintf("Set of a %s (stored: err=%v), then a fresh reader: %s", label, serr, out), violation{Key: "large/get-not-miss-or-complete-bundle", What: out, Scenario: sc, Trace: []string{"large-bundle"}})
+		}
+		if serr == nil && out == "miss" {
+			r.Violation("large/acknowledged-write-not-visible", fmt.Sprintf("Set of a %s returned nil, a fresh reader gets a miss", label), violation{Key: "large/acknowledged-write-not-visible", What: out, Scenario: sc, Trace: []string{"large-bundle"}})
+		}
+		done = append(done, label+":"+out)
+		_ = os.RemoveAll(filepath.Dir(root))
+	}
+	return map[string]any{"bundles": done}
 }
